@@ -237,8 +237,11 @@ Definition s_all (s : store) : list rec := concat (map trecs (stabs s)).
 
 (* ------------------------------------- compaction -------------------------------------------- *)
 
+(* isCompactionOK: the garbage ratio is reached, or nothing in the table is alive any more (a table is sealed as soon
+   as an entry does not fit in, so it may be far from full and never reach the ratio) *)
 Definition compactable (t : table) : bool :=
-  talloc t * max_garbage_ratio_num <=? tgarb t * max_garbage_ratio_den.
+  ((tinuse t =? 0) && (0 <? tgarb t)) ||
+  (talloc t * max_garbage_ratio_num <=? tgarb t * max_garbage_ratio_den).
 
 Definition find_by_coef (c : N) (ts : list table) : option table :=
   find (fun t => negb (is_recycled t) && (tcoef t =? c)) ts.
